@@ -25,6 +25,12 @@ Section Assoc.
     | [] => [(k, v)]
     | (k', v') :: r => if N.eqb k k' then (k, v) :: r else (k', v') :: aset k v r
     end.
+  (* update only if the key is present *)
+  Fixpoint aupd (k : N) (v : V) (l : list (N * V)) : list (N * V) :=
+    match l with
+    | [] => []
+    | (k', v') :: r => if N.eqb k k' then (k, v) :: r else (k', v') :: aupd k v r
+    end.
   Definition ahas (k : N) (l : list (N * V)) : bool :=
     match alookup k l with Some _ => true | None => false end.
 End Assoc.
